@@ -34,7 +34,10 @@ def strings(alpha, maxlen):
 
 def run_batch(rows, fn='like'):
     out, w = [], []
-    engine.rbql.query_table('select %s(a1, a2)' % fn, rows, out, w)
+    try:
+        engine.rbql.query_table('select %s(a1, a2)' % fn, rows, out, w)
+    except Exception as e:
+        raise Violation('like-query-raises', {'error': engine.err_info(e), 'first_rows': rows[:3]})
     return [r[0] for r in out]
 
 
@@ -65,9 +68,13 @@ def shard_enum(shard, nshards, tier, seed, scratch):
     failures, seen = [], set()
     pats = strings(SIGMA, 3)
     texts = strings(SIGMA, 2 if tier == 'quick' else 3)
-    for i, t in enumerate(texts):
-        if i % nshards == shard:
-            check_batch(t, pats, stats, failures, seen, 'enum-sigma')
+    try:
+        for i, t in enumerate(texts):
+            if i % nshards == shard:
+                check_batch(t, pats, stats, failures, seen, 'enum-sigma')
+    except Violation as v:
+        failures.append({'leg': 'enum-sigma', 'clause': v.clause, 'detail': v.detail, 'case': {'kind': 'pair', 'text': v.detail['first_rows'][0][0], 'pattern': v.detail['first_rows'][0][1]}})
+        return {'stats': stats.export(), 'failures': failures}
     stats.bump('sigma-patterns', len(pats))
     if tier == 'thorough':
         pats2 = strings(['a', '%', '_', '.', '\\'], 5)
@@ -85,7 +92,8 @@ def st_pair(draw):
     if k == 0:
         sym = st.sampled_from(SIGMA)
         return {'kind': 'pair', 'pattern': ''.join(draw(st.lists(sym, max_size=5))), 'text': ''.join(draw(st.lists(sym, max_size=5)))}
-    ch = st.one_of(st.sampled_from(SIGMA + ['%', '_', '%', 'é', '𝄞', '\r', '\t', ' ']), st.characters(blacklist_categories=('Cs',), blacklist_characters='\n'))
+    ch = st.one_of(st.sampled_from(SIGMA + ['%', '_', '%', 'é', '𝄞', '\r', '\t', ' ', '{', '}', '1', '2', ',', '{2}', '{1,3}', '{,2}', ']', ')', '-', '\\d', '\\b', '#', '&', '~', ' ']),
+                st.characters(blacklist_categories=('Cs',), blacklist_characters='\n'))
     text = ''.join(draw(st.lists(ch, max_size=24)))
     if k == 1:
         # a pattern derived from the text so that matches are common
@@ -111,9 +119,12 @@ def check_pair(case, stats=None):
     exp = refmodel.ref_like(t, p)
     if stats is not None:
         stats.case(case, ('%' in p or '_' in p) and bool(set(p) & META), ['random-match' if exp else 'random-nomatch'], sample=dict(case, expected=exp))
-    got = run_batch([[t, p], ['zz', 'z_'], [t, p]])
-    if got[0] is not exp or got[2] is not exp or got[1] is not True:
-        raise Violation('query-result', {'text': t, 'pattern': p, 'got': got, 'expected': exp})
+    # the same query also evaluates case variants: the per-query regex cache must not confuse them
+    rows = [[t, p], ['zz', 'z_'], [t, p], [t, p.swapcase()], [t.swapcase(), p], [t, p]]
+    got = run_batch(rows)
+    want = [refmodel.ref_like(a, b) for a, b in rows]
+    if any(g is not w for g, w in zip(got, want)) or len(got) != len(want):
+        raise Violation('query-result', {'text': t, 'pattern': p, 'rows': rows, 'got': got, 'expected': want})
     if (re.match(rbql_engine.like_to_regex(p), t) is not None) is not exp:
         raise Violation('like_to_regex', {'text': t, 'pattern': p, 'expected': exp})
 
